@@ -1047,10 +1047,62 @@ func emitFacts(path string, pkgs []*packages.Package) {
 					if fd.Name.Name == "AddChannelBind" {
 						lock = "a.channelBindingsLock"
 					}
-					txt := strings.ReplaceAll(nodeText(p, fd.Body), "defer "+lock+".Unlock()", "defer-unlock")
-					li, ri := strings.Index(txt, lock+".Lock()"), strings.Index(txt, ".refresh(")
-					found["entryRefresh_"+fd.Name.Name] = li >= 0 && ri > li && !strings.Contains(txt, lock+".RLock()") &&
-						!strings.Contains(txt[:ri], lock+".Unlock()")
+					// walk the top-level statements: the lock is taken, and the statement that refreshes comes while it is held;
+					// inside that statement nothing unlocks before the refresh (branches that unlock and return earlier are fine)
+					locked, ok := false, false
+					for _, st := range fd.Body.List {
+						txt := nodeText(p, st)
+						if es, isExpr := st.(*ast.ExprStmt); isExpr {
+							switch types.ExprString(es.X) {
+							case lock + ".Lock()":
+								locked = true
+							case lock + ".Unlock()":
+								locked = false
+							}
+						}
+						if ri := strings.Index(txt, ".refresh("); ri >= 0 {
+							ok = locked && !strings.Contains(txt[:ri], lock+".Unlock()")
+							break
+						}
+					}
+					found["entryRefresh_"+fd.Name.Name] = ok && !strings.Contains(nodeText(p, fd.Body), lock+".RLock()")
+				}
+				if p.Name == "allocation" && fd.Recv != nil && fd.Name.Name == "deleteAllocation" {
+					// deleteAllocation(fiveTuple, only) stands down when `only` is given and another allocation is registered
+					found["byObject_deleteAllocation"] = strings.Contains(nodeText(p, fd.Body), "only != nil && allocation != only")
+				}
+				if p.Name == "allocation" && fd.Recv != nil && (fd.Name.Name == "packetConnHandler" || fd.Name.Name == "connHandler") {
+					// an allocation's relay readers delete by object: deleteAllocation(a.fiveTuple, a), never DeleteAllocation(5-tuple)
+					txt := nodeText(p, fd.Body)
+					found["byObject_"+fd.Name.Name] = strings.Contains(txt, "deleteAllocation(a.fiveTuple, a)") && !strings.Contains(txt, "DeleteAllocation(") &&
+						strings.Count(txt, "deleteAllocation(") == strings.Count(txt, "deleteAllocation(a.fiveTuple, a)")
+				}
+				if p.Name == "allocation" && fd.Recv != nil && fd.Name.Name == "CreateAllocation" {
+					// ... and so does its lifetime timer
+					ok := false
+					ast.Inspect(fd.Body, func(n ast.Node) bool {
+						call, isCall := n.(*ast.CallExpr)
+						if !isCall || types.ExprString(call.Fun) != "time.AfterFunc" || len(call.Args) != 2 {
+							return true
+						}
+						txt := nodeText(p, call.Args[1])
+						ok = strings.Contains(txt, "deleteAllocation(alloc.fiveTuple, alloc)") && !strings.Contains(txt, "DeleteAllocation(")
+						return false
+					})
+					found["byObject_lifetimeTimer"] = ok
+				}
+				if p.Name == "allocation" && fd.Recv != nil && (fd.Name.Name == "AddPermission" || fd.Name.Name == "AddChannelBind" || fd.Name.Name == "addTCPConnection") {
+					// attach steps look at the allocation's closed mark after taking the lock under which they insert, and before inserting
+					txt := nodeText(p, fd.Body)
+					lock, check, insert := "a.permissionsLock.Lock()", "a.isClosed()", "a.permissions[fingerprint] = perms"
+					switch fd.Name.Name {
+					case "AddChannelBind":
+						lock, insert = "a.channelBindingsLock.Lock()", "a.channelBindings = append(a.channelBindings, chanBind)"
+					case "addTCPConnection":
+						lock, check, insert = "m.lock.Lock()", "<-allocation.closed", "allocation.tcpConnections[connectionID] = tcpConn"
+					}
+					li, ci, ii := strings.Index(txt, lock), strings.Index(txt, check), strings.Index(txt, insert)
+					found["attach_"+fd.Name.Name] = li >= 0 && ci > li && ii > ci
 				}
 				if p.Name == "allocation" && fd.Name.Name == "Refresh" && fd.Recv != nil {
 					// Allocation.Refresh reports the outcome of lifetimeTimer.Reset: false when the timer had fired or been stopped
@@ -1109,6 +1161,9 @@ func emitFacts(path string, pkgs []*packages.Package) {
 	}
 	found["refresh_reports_expiry"] = found["refresh_reports_expiry_alloc"] && found["refresh_reports_expiry_handler"]
 	found["clientPerm_delete_conditional"] = found["clientPerm_createPermission"] && found["clientPerm_forgetIdlePermission"]
+	found["attach_checks_closed_under_lock"] = found["attach_AddPermission"] && found["attach_AddChannelBind"] && found["attach_addTCPConnection"]
+	found["ownGoroutines_delete_by_object"] = found["byObject_deleteAllocation"] && found["byObject_packetConnHandler"] &&
+		found["byObject_connHandler"] && found["byObject_lifetimeTimer"]
 	if os.Getenv("XLATE_DEBUG") != "" {
 		fmt.Fprintf(os.Stderr, "facts: %v\n", found)
 	}
@@ -1116,7 +1171,7 @@ func emitFacts(path string, pkgs []*packages.Package) {
 		found["entryExpiry_startPermission"] && found["entryExpiry_startChannelBind"] &&
 		found["entryRefresh_AddPermission"] && found["entryRefresh_AddChannelBind"]
 	for _, k := range []string{"addPermission_arms_under_lock", "addPermission_callback_after_unlock", "bindTimer_decides_under_lock",
-		"refresh_reports_expiry", "clientPerm_delete_conditional", "entryExpiry_decides_under_lock"} {
+		"refresh_reports_expiry", "clientPerm_delete_conditional", "entryExpiry_decides_under_lock", "ownGoroutines_delete_by_object", "attach_checks_closed_under_lock"} {
 		fmt.Fprintf(&w, "def %s : Bool := %v\n", k, found[k])
 	}
 	fmt.Fprintf(&w, "end Gen.Facts\n")
